@@ -1,7 +1,8 @@
 """C02 — text copied from the document maps to exactly the offset where it stands."""
 import t2t, corr, semrun, impl
 
-OBLIGATIONS = ['Yalafi.C02_scan_slice', 'Yalafi.C02_getTxtPos_single', 'Yalafi.C02_removeLines_nonblank']
+OBLIGATIONS = ['Yalafi.C02_scan_slice', 'Yalafi.C02_getTxtPos_single', 'Yalafi.C02_removeLines_nonblank',
+               'Yalafi.C02_verb_literal', 'Yalafi.C02_verb_example_current']
 
 def special_table():
     m = impl.load()
